@@ -506,6 +506,32 @@ pub fn gen_project(rng: &mut Rng, knobs: &ProjectKnobs) -> Project {
                 body: Body::Dir,
             });
         }
+        if rng.chance(1, 6) {
+            // not Lua sources: upper-case extension, a name that is only an extension
+            other.push(FsEntry {
+                path: join(&input_dir, "UPPER.LUA"),
+                body: Body::Text("return 'upper case extension'\n".to_owned()),
+            });
+            other.push(FsEntry {
+                path: join(&input_dir, "sub/.lua"),
+                body: Body::Text("return 'no stem'\n".to_owned()),
+            });
+        }
+        if !knobs.memory_safe && rng.chance(1, 6) {
+            // a directory with the stem of a source next to it
+            if let Some(first) = sources.first() {
+                let stem_dir = match first.path.rfind('.') {
+                    Some(i) => first.path[..i].to_owned(),
+                    None => first.path.clone(),
+                };
+                if !sources.iter().any(|s| s.path.starts_with(&format!("{}/", stem_dir)) || s.path == stem_dir) {
+                    other.push(FsEntry {
+                        path: join(&stem_dir, "inside.txt"),
+                        body: Body::Text("in a directory named like a source\n".to_owned()),
+                    });
+                }
+            }
+        }
     }
     let input = if input_is_file {
         sources[0].path.clone()
@@ -595,7 +621,15 @@ pub struct Invocation {
     pub extra_entries: Vec<FsEntry>,
 }
 
-pub const OUTPUT_DIRS: &[&str] = &["out", "dist/nested", "build dir", "out.d"];
+pub const OUTPUT_DIRS: &[&str] = &[
+    "out",
+    "dist/nested",
+    "build dir",
+    "out.d",
+    "src-out",
+    "in2",
+    "a.b.out",
+];
 
 /// Choose how darklua is invoked for this project and where the configuration lives.
 pub fn gen_invocation(
@@ -687,10 +721,19 @@ pub fn gen_invocation(
             }
         }
     }
-    let input = if rng.chance(1, 6) {
-        format!("./{}", project.input)
-    } else {
-        project.input.clone()
+    // other spellings of the same input path
+    let input = match rng.below(12) {
+        0 | 1 => format!("./{}", project.input),
+        2 if !project.input_is_file => format!("{}/", project.input),
+        3 => {
+            let first = project.input.split('/').next().unwrap_or("").to_owned();
+            if first.is_empty() || project.input_is_file {
+                project.input.clone()
+            } else {
+                format!("{}/../{}", first, project.input)
+            }
+        }
+        _ => project.input.clone(),
     };
     Invocation {
         opts: OptSpec {
